@@ -660,9 +660,12 @@ def c12_pair_case(case):
             df, nmap, exp = tables[key]
         else:
             df, nmap, exp = c12_table(worlds.seed_from_json(seed_j), scheme, parent_enc, ndim, naming, extras, pos_order)
+            nmap = {k: (list(v) if isinstance(v, list) else v) for k, v in nmap.items()}
             tables[key] = (df, nmap, exp)
         if shared is None:
-            shared, shared0 = nmap, {k: (list(v) if isinstance(v, list) else v) for k, v in nmap.items()}
+            # the caller's one dict, handed to both imports; `nmap` stays a pristine copy
+            shared = {k: (list(v) if isinstance(v, list) else v) for k, v in nmap.items()}
+            shared0 = nmap
         elif nmap != shared0:
             raise RuntimeError("pair case with different name maps")
         cls = f"pair:{which}:{scheme}:{naming}:{case_a[6]}>{case_b[6]}"
